@@ -7,7 +7,8 @@
 //
 // A "slice" is one cell: (grid A/B, depth, total length), (grid C, slot of the special name, total length),
 // (grid D, depth, position of the long name), (grid E, install path, "states") or (grid F, depth, position of the dot-family
-// name [@ total length]); its cases are flavour-or-name-shape-or-state x invocation (x helper build).
+// name [@ total length]) or (grid G, install path representative, which directory of the path is restricted: none | index | all);
+// its cases are flavour-or-name-shape-or-state-or-rights x invocation-or-launch (x helper build).
 #include "report.hpp"
 
 #include <algorithm>
@@ -15,6 +16,7 @@
 #include <climits>
 #include <ctime>
 #include <fcntl.h>
+#include <grp.h>
 #include <sys/sendfile.h>
 #include <sys/stat.h>
 #include <sys/types.h>
@@ -33,8 +35,33 @@ namespace
 
     const char* const FLAVOURS[] = {"plain", "spaces", "utf8", "highbytes", "leading-dot", "special"};
     enum { F_PLAIN, F_SPACES, F_UTF8, F_HIGH, F_DOT, F_SPECIAL, N_FLAVOURS };
-    const char* const INVOCATIONS[] = {"direct", "relative", "symlink-file", "symlink-dir", "symlink-chain"};
-    enum { I_DIRECT, I_RELATIVE, I_LINK_FILE, I_LINK_DIR, I_LINK_CHAIN, N_INVOCATIONS };
+    // the last six are the LAUNCH kinds of grid G (access context of the process relative to its install path): how a process
+    // comes to run a program whose install path it cannot (fully) search or list with the credentials it has at call time
+    const char* const INVOCATIONS[] = {"direct", "relative", "symlink-file", "symlink-dir", "symlink-chain",
+                                       "root", "drop", "fexecve", "procfd", "cwd", "owner-revokes"};
+    enum { I_DIRECT, I_RELATIVE, I_LINK_FILE, I_LINK_DIR, I_LINK_CHAIN,
+           I_ACC_ROOT,     // started by root, stays root (rights on directories do not bind root: baseline)
+           I_ACC_DROP,     // started by root by absolute path; the PROGRAM drops to an unprivileged uid/gid before the call (daemon start-up)
+           I_ACC_FEXECVE,  // the parent opens the file (O_PATH) while privileged, drops, fexecve(fd)
+           I_ACC_PROCFD,   // same, but execv("/proc/self/fd/N")
+           I_ACC_CWD,      // the parent chdirs into the program's directory while privileged, drops, execv("./name")
+           I_ACC_OWNER,    // path owned by the unprivileged uid, which starts the program by absolute path; the PROGRAM then removes
+                           // its own rights on the directory (fchmod) before the call
+           N_INVOCATIONS };
+    const char* const LAUNCH_TEXT[] = {
+        "started by root by its absolute path and staying root (directory modes do not bind root)",
+        "started by root by its absolute path; the program itself does setgroups(0)/setgid/setuid to the unprivileged id before the call",
+        "parent opens the file O_PATH while root, drops to the unprivileged id, fexecve(fd)",
+        "parent opens the file O_PATH while root, drops to the unprivileged id, execv(\"/proc/self/fd/N\")",
+        "parent chdirs into the program's directory while root, drops to the unprivileged id, execv(\"./name\")",
+        "path and file owned by the unprivileged id, started by it by absolute path; the program itself fchmods the directory before the call"};
+    // what the calling uid is left with on a restricted directory: nothing / may list it but not search it / may search but not list it
+    const char* const RIGHTS[] = {"---", "r--", "--x"};
+    const mode_t RIGHTS_MODE_OTHER[] = {0700, 0744, 0711};  // directory of root, the caller is "other"
+    const mode_t RIGHTS_MODE_OWNER[] = {0000, 0400, 0100};  // directory of the caller itself
+    enum { R_NONE, R_READ, R_SEARCH, N_RIGHTS };
+    const mode_t FILE_MODES[] = {0755, 0111};               // the program file itself: ordinary / execute-only (not readable by a non-root caller)
+    const uid_t UNPRIV = 65534;
 
     int flavour_min(int f) { return (f == F_UTF8 || f == F_DOT) ? 2 : 1; }
 
@@ -107,7 +134,28 @@ namespace
         std::vector<int> dot_depths, dot_invocations;
         std::vector<int> dot_long_lens;
         int dot_long_depth = 17;
+        // grid G: access context.  install path representative (ACCESS_PATHS) x which directory is restricted x rights left x file mode x launch
+        std::vector<int> access_paths;
+        bool access_every_position = false;
     };
+    // the path alphabet thinned to representatives: every flavour, the three length buckets, the length boundary 1024 and PATH_MAX-1, depth 1
+    struct access_path { const char* label; int depth; const char* lenclass; int flavour; int long_at; };
+    const access_path ACCESS_PATHS[] = {
+        {"short-plain", 3, "short", F_PLAIN, -1},
+        {"one-255-byte-name-highbytes", 3, "short", F_HIGH, 1},
+        {"total-1024-spaces", 8, "1024", F_SPACES, -1},
+        {"short-special", 3, "short", F_SPECIAL, -1},
+        {"depth-1-leading-dot", 1, "short", F_DOT, -1},
+        {"total-4095-utf8", 40, "4095", F_UTF8, -1},
+    };
+    const int N_ACCESS_PATHS = int(sizeof(ACCESS_PATHS) / sizeof(ACCESS_PATHS[0]));
+    // positions (index of the restricted directory among the depth directories below the scratch root) enumerated for one path
+    std::vector<int> access_positions(int depth, bool every)
+    {
+        std::set<int> s = {0, depth / 2, depth - 1};
+        if (every && depth <= 8) for (int i = 0; i < depth; ++i) s.insert(i);
+        return std::vector<int>(s.begin(), s.end());
+    }
     const std::vector<std::string>& states()
     {
         static std::vector<std::string> v;
@@ -255,6 +303,7 @@ namespace
             t.state_invocations = {I_DIRECT};
             t.dot_depths = {1, 4};
             t.dot_invocations = {I_DIRECT, I_LINK_FILE};
+            t.access_paths = {0, 1, 2};
         }
         else
         {
@@ -278,6 +327,8 @@ namespace
             t.dot_depths = {1, 2, 3, 4, 5, 8, 17};
             t.dot_invocations = t.invocations;
             t.dot_long_lens = {1024, 4095};
+            t.access_paths = {0, 1, 2, 3, 4, 5};
+            t.access_every_position = true;
         }
         return t;
     }
@@ -294,6 +345,8 @@ namespace
 
     // ------------------------------------------------------------------ state --------------------------------------
 
+    bool g_isroot = true;     // grid G needs root to create directories the caller cannot search; without it only owner-revokes exists
+    bool g_access_grid = true;  // false: uid 0 that may not change its uid (e.g. a user namespace without other ids): grid G cannot be set up
     std::string g_root;       // as given
     std::string g_realroot;   // canonical
     std::vector<std::pair<std::string, std::string>> g_helpers;  // build name -> binary
@@ -379,11 +432,49 @@ namespace
         std::string asan_line;
         std::string first;       // state called-before: what the earlier call returned
         int repeat_equal = -1;   //                      and whether two earlier calls agreed
+        bool started = true;     // grid G: false when execve itself was refused with EACCES (the caller may not search the directory)
+        long ruid = -1, euid = -1, rgid = -1, egid = -1, ngroups = -1;  // credentials at call time as the helper saw them
     };
 
-    // run argv0path (as seen from the current directory = the bin directory) and collect what the helper printed
-    outcome run_helper(const std::string& invoke_path, const std::string& state = "")
+    // grid G: how the process is started and how it comes to its credentials (see the I_ACC_* kinds)
+    struct launch
     {
+        int kind = -1;
+        std::string file;                      // program name (cwd launch: "./name")
+        std::vector<std::string> revoke_dirs;  // owner-revokes: directories whose mode the program changes itself (absolute paths)
+        mode_t revoke_mode = 0;
+    };
+
+    void drop_privileges()
+    {
+        if (!g_isroot) return;
+        if (::setgroups(0, nullptr) != 0 || ::setgid(UNPRIV) != 0 || ::setuid(UNPRIV) != 0) _exit(125);
+        if (::geteuid() != UNPRIV || ::setuid(0) == 0) _exit(125);
+    }
+
+    // can a process with the given credentials reach `path` by walking it from / ?  0 yes, 1 EACCES (asked of the kernel in a child)
+    int probe_walk(const std::string& path, bool unprivileged)
+    {
+        pid_t pid = ::fork();
+        if (pid < 0) die("fork (probe)");
+        if (pid == 0)
+        {
+            if (unprivileged) drop_privileges();
+            int fd = ::open(path.c_str(), O_PATH | O_CLOEXEC);
+            _exit(fd >= 0 ? 0 : errno == EACCES ? 13 : 99);
+        }
+        int status = 0;
+        while (::waitpid(pid, &status, 0) < 0)
+            if (errno != EINTR) die("waitpid (probe)");
+        if (WIFEXITED(status) && WEXITSTATUS(status) == 0) return 0;
+        if (WIFEXITED(status) && WEXITSTATUS(status) == 13) return 1;
+        die("access probe ended unexpectedly (status " + std::to_string(status) + ")");
+    }
+
+    // run argv0path (as seen from the current directory = the bin directory) and collect what the helper printed
+    outcome run_helper(const std::string& invoke_path, const std::string& state_in = "", const launch* lc = nullptr)
+    {
+        std::string state = state_in;
         const std::string outf = g_root + "/.c20_out", errf = g_root + "/.c20_err";
         pid_t pid = ::fork();
         if (pid < 0) die("fork");
@@ -407,9 +498,55 @@ namespace
             if (!state.empty()) ::setenv("C20_STATE", state.c_str(), 1); else ::unsetenv("C20_STATE");
             ::setenv("C20_SCRATCH", g_realroot.c_str(), 1);
             ::alarm(120);
-            char* const argv[] = {const_cast<char*>(invoke_path.c_str()), nullptr};
-            ::execv(invoke_path.c_str(), argv);
-            _exit(127);
+            std::string path = invoke_path;
+            int exec_fd = -1;
+            if (lc)
+                switch (lc->kind)
+                {
+                case I_ACC_ROOT: break;
+                case I_ACC_DROP: state = "drop:" + std::to_string(long(UNPRIV)); break;
+                case I_ACC_FEXECVE:
+                    exec_fd = ::open(path.c_str(), O_PATH | O_CLOEXEC);
+                    if (exec_fd < 0) _exit(124);
+                    drop_privileges();
+                    break;
+                case I_ACC_PROCFD:
+                {
+                    int fd = ::open(path.c_str(), O_PATH);
+                    if (fd < 0) _exit(124);
+                    drop_privileges();
+                    path = "/proc/self/fd/" + std::to_string(fd);
+                    break;
+                }
+                case I_ACC_CWD:  // the current directory IS the program's directory (run_slice built the path by chdir steps)
+                    drop_privileges();
+                    path = "./" + lc->file;
+                    break;
+                case I_ACC_OWNER:
+                {
+                    std::string fds;
+                    for (const std::string& d : lc->revoke_dirs)
+                    {
+                        int fd = ::open(d.c_str(), O_RDONLY | O_DIRECTORY);
+                        if (fd < 0) _exit(124);
+                        fds += (fds.empty() ? "" : ",") + std::to_string(fd);
+                    }
+                    drop_privileges();
+                    if (!fds.empty())
+                    {
+                        char oct[16];
+                        std::snprintf(oct, sizeof oct, "%o", unsigned(lc->revoke_mode));
+                        state = std::string("revoke:") + oct + ":" + fds;
+                    }
+                    break;
+                }
+                default: _exit(124);
+                }
+            if (lc) { if (!state.empty()) ::setenv("C20_STATE", state.c_str(), 1); else ::unsetenv("C20_STATE"); }
+            char* const argv[] = {const_cast<char*>(path.c_str()), nullptr};
+            if (exec_fd >= 0) ::fexecve(exec_fd, argv, environ);
+            else ::execv(path.c_str(), argv);
+            _exit(lc && errno == EACCES ? 120 : 127);
         }
         int status = 0;
         while (::waitpid(pid, &status, 0) < 0)
@@ -444,6 +581,7 @@ namespace
             ls >> k;
             if (k == "state_error") die("the helper could not enter state '" + state + "': " + line);
             if (k == "repeat_equal") { ls >> r.repeat_equal; continue; }
+            if (k == "ids") { ls >> r.ruid >> r.euid >> r.rgid >> r.egid >> r.ngroups; continue; }
             if (k == "exe" || k == "prefix" || k == "first")
             {
                 size_t len = 0;
@@ -467,6 +605,14 @@ namespace
             r.how = s == SIGALRM ? "timeout-120s" : s == SIGSEGV ? "SIGSEGV" : s == SIGABRT ? "SIGABRT" : s == SIGBUS ? "SIGBUS"
                   : s == SIGFPE ? "SIGFPE" : s == SIGILL ? "SIGILL" : "signal-" + std::to_string(s);
         }
+        else if (WIFEXITED(status) && WEXITSTATUS(status) == 120)
+        {
+            r.started = false;  // execve refused with EACCES: judged against the permission model by the caller
+            r.how = "not-started";
+            return r;
+        }
+        else if (WIFEXITED(status) && (WEXITSTATUS(status) == 124 || WEXITSTATUS(status) == 125))
+            die("grid G: the child could not " + std::string(WEXITSTATUS(status) == 124 ? "open the file or directory it was to pass on" : "drop its privileges"));
         else if (WIFEXITED(status) && WEXITSTATUS(status) == 127)
             die("execv of the installed helper failed: " + abbreviate(invoke_path) + " stderr: " + err.substr(0, 300));
         else if (WIFEXITED(status) && WEXITSTATUS(status) == 126)
@@ -593,6 +739,11 @@ namespace
         std::string what;                // description for messages
         bool plain = false;
         std::string state;               // grid E: C20_STATE for the helper
+        // grid G: indices (among the directories below the scratch root) of the restricted directories, the rights the calling uid
+        // keeps on them, the mode of the program file
+        std::vector<int> restricted;
+        int rights = -1;
+        mode_t fmode = 0755;
     };
 
     std::string relpath_shown(const std::vector<std::string>& names, const std::vector<size_t>& keep)
@@ -785,8 +936,129 @@ namespace
                 out.push_back(sp);
             }
         }
+        else if (sl.grid == "G")
+        {
+            // depth = index into ACCESS_PATHS; lenclass = "none" | "<index of the restricted directory>" | "all"
+            if (sl.depth < 0 || sl.depth >= N_ACCESS_PATHS) die("bad access-context path");
+            const access_path& ap = ACCESS_PATHS[sl.depth];
+            if (g_isroot) invocations = {I_ACC_ROOT, I_ACC_DROP, I_ACC_FEXECVE, I_ACC_PROCFD, I_ACC_CWD, I_ACC_OWNER};
+            else invocations = {I_ACC_OWNER};
+            std::vector<std::string> names;
+            int L = 0;
+            if (ap.long_at >= 0)
+                for (int i = 0; i <= ap.depth; ++i) names.push_back(component(ap.flavour, i, i == ap.long_at ? NAMEMAX : 3 + (i % 4)));
+            else
+            {
+                std::vector<int> lens = name_lengths(ap.depth, ap.lenclass, ap.flavour, &L);
+                for (size_t i = 0; i < lens.size(); ++i) names.push_back(component(ap.flavour, int(i), lens[i]));
+            }
+            size_t total = size_t(R);
+            for (auto& x : names) total += 1 + x.size();
+            std::vector<int> restricted;
+            std::string which;
+            if (sl.lenclass == "none") which = "no directory restricted";
+            else if (sl.lenclass == "all")
+            {
+                for (int i = 0; i < ap.depth; ++i) restricted.push_back(i);
+                which = "EVERY one of the " + std::to_string(ap.depth) + " directories below the scratch root restricted";
+            }
+            else
+            {
+                if (sl.lenclass.find_first_not_of("0123456789") != std::string::npos || std::atoi(sl.lenclass.c_str()) >= ap.depth) die("bad access-context position");
+                const int at = std::atoi(sl.lenclass.c_str());
+                restricted.push_back(at);
+                which = "directory " + std::to_string(at + 1) + " of " + std::to_string(ap.depth) + (at == ap.depth - 1 ? " (the program's own directory)" : "") + " restricted";
+            }
+            for (int rg = 0; rg < N_RIGHTS; ++rg)
+            {
+                if (restricted.empty() && rg != 0) break;  // nothing restricted: the rights alphabet does not apply
+                for (mode_t fm : FILE_MODES)
+                {
+                    char oct[16];
+                    std::snprintf(oct, sizeof oct, "%04o", unsigned(fm));
+                    spec sp;
+                    sp.names = names;  // empty when the representative is not creatable under this root
+                    sp.restricted = restricted;
+                    sp.rights = restricted.empty() ? -1 : rg;
+                    sp.fmode = fm;
+                    sp.plain = ap.flavour == F_PLAIN && restricted.empty() && fm == 0755;
+                    sp.label = std::string(restricted.empty() ? "r-x" : RIGHTS[rg]) + "/" + oct;
+                    sp.what = "access context: " + which + (restricted.empty() ? "" : ", rights left to the calling uid there '" + std::string(RIGHTS[rg]) + "'")
+                        + ", program file mode " + oct + ", install path " + ap.label + " (depth " + std::to_string(ap.depth) + ", total length "
+                        + std::to_string(total) + " bytes, flavour " + FLAVOURS[ap.flavour] + "), path " + relpath_shown(names, {0, names.size() - 1});
+                    out.push_back(sp);
+                }
+            }
+        }
         else die("unknown grid " + sl.grid);
         return out;
+    }
+
+    // ---- grid G: one access context.  Sets the ownership / modes up, starts the program through the launch kind, ASKS THE KERNEL
+    // (probe child with the same credentials) whether the install path can still be walked, compares that and the credentials the
+    // program reported with the permission model (a mismatch is a harness error: the context was not what the case says), and puts
+    // ownership and modes back.  The verdict on what the program returned is the ordinary one (judge).
+    outcome run_access_case(const spec& sp, int kind, const std::vector<std::string>& names, const std::string& expect_exe)
+    {
+        const int depth = int(names.size()) - 1;
+        std::vector<std::string> dirs;  // absolute paths of the directories below the scratch root, top-down
+        {
+            std::string d = g_realroot;
+            for (int i = 0; i < depth; ++i) { d += "/" + names[size_t(i)]; dirs.push_back(d); }
+        }
+        const bool owner = kind == I_ACC_OWNER;
+        const bool unprivileged = kind != I_ACC_ROOT;
+        const bool may_search = sp.rights == R_SEARCH;  // of the restricted directories; all others are 0755
+        // permission model -------------------------------------------------------------------------------------------------
+        bool bindir_restricted = false;
+        for (int i : sp.restricted) if (i == depth - 1) bindir_restricted = true;
+        const bool model_startable = !(kind == I_ACC_CWD && bindir_restricted && !may_search);
+        const bool model_walkable = (kind == I_ACC_ROOT && g_isroot) || sp.restricted.empty() || may_search;
+        // set-up ----------------------------------------------------------------------------------------------------------
+        launch lc;
+        lc.kind = kind;
+        lc.file = names.back();
+        if (owner)
+        {
+            if (g_isroot)
+            {
+                for (const std::string& d : dirs) if (::lchown(d.c_str(), UNPRIV, UNPRIV) != 0) die("chown directory");
+                if (::lchown(expect_exe.c_str(), UNPRIV, UNPRIV) != 0) die("chown installed program");
+                if (::chmod(expect_exe.c_str(), sp.fmode) != 0) die("chmod installed program");  // chown clears nothing here, but be explicit
+            }
+            for (int i : sp.restricted) lc.revoke_dirs.push_back(dirs[size_t(i)]);
+            if (!sp.restricted.empty()) lc.revoke_mode = RIGHTS_MODE_OWNER[sp.rights];
+        }
+        else
+            for (int i : sp.restricted)
+                if (::chmod(dirs[size_t(i)].c_str(), RIGHTS_MODE_OTHER[sp.rights]) != 0) die("chmod directory");
+        // run + probe -----------------------------------------------------------------------------------------------------
+        outcome r = run_helper(expect_exe, "", &lc);
+        const int walk = probe_walk(expect_exe, unprivileged);
+        // put everything back (top-down, so that it also works for a non-root owner) --------------------------------------------
+        for (const std::string& d : dirs)
+        {
+            if (::chmod(d.c_str(), 0755) != 0) die("chmod directory back");
+            if (owner && g_isroot && ::lchown(d.c_str(), 0, 0) != 0) die("chown directory back");
+        }
+        if (owner && g_isroot && (::lchown(expect_exe.c_str(), 0, 0) != 0 || ::chmod(expect_exe.c_str(), sp.fmode) != 0)) die("chown installed program back");
+        // harness self-checks ---------------------------------------------------------------------------------------------
+        const std::string ctx = std::string(INVOCATIONS[kind]) + " / " + sp.label + " / " + std::to_string(sp.restricted.size()) + " restricted";
+        if (r.started != model_startable)
+            die("grid G (" + ctx + "): the kernel " + (r.started ? "started" : "refused to start") + " the program but the permission model says the opposite");
+        if ((walk == 0) != model_walkable)
+            die("grid G (" + ctx + "): the install path is " + (walk == 0 ? "walkable" : "not walkable") + " for the calling credentials but the permission model says the opposite");
+        vf::stat("access_probe_runs");
+        if (!r.started) return r;
+        vf::stat(walk == 0 ? "access_contexts_path_walkable" : "access_contexts_path_not_walkable");
+        if (r.have_exe)
+        {
+            const long want = unprivileged && g_isroot ? long(UNPRIV) : long(::geteuid());
+            if (r.ruid != want || r.euid != want || (g_isroot && (r.rgid != want || r.egid != want)) || (unprivileged && g_isroot && r.ngroups != 0))
+                die("grid G (" + ctx + "): the program reported uid " + std::to_string(r.ruid) + "/" + std::to_string(r.euid) + " gid " + std::to_string(r.rgid) + "/"
+                    + std::to_string(r.egid) + " groups " + std::to_string(r.ngroups) + " at call time, expected " + std::to_string(want));
+        }
+        return r;
     }
 
     void run_slice(const tier_def& T, const slice& sl, long slice_index)
@@ -840,6 +1112,7 @@ namespace
             for (size_t hv = 0; hv < g_helpers.size(); ++hv)
             {
                 copy_to(g_helpers[hv].second, file.c_str());
+                if (sp.fmode != 0755 && ::chmod(file.c_str(), sp.fmode) != 0) die("chmod installed program");
                 long cn = case_no;
                 for (int inv : invocations)
                 {
@@ -851,9 +1124,17 @@ namespace
                     case I_LINK_FILE: how = lf; break;
                     case I_LINK_DIR: how = ld + "/" + file; break;
                     case I_LINK_CHAIN: how = lc; break;
+                    default: how = expect_exe; break;  // grid G launches: see run_helper
                     }
-                    outcome r = run_helper(how, sp.state);
-                    std::string where = std::string("[grid ") + sl.grid + ", " + sp.what + ", invocation " + INVOCATIONS[inv] + ", build " + g_helpers[hv].first + "]";
+                    outcome r;
+                    if (inv >= I_ACC_ROOT)
+                    {
+                        r = run_access_case(sp, inv, names, expect_exe);
+                        if (!r.started) { vf::stat("cases_not_startable"); ++cn; continue; }  // not part of the space: the kernel refuses the exec
+                    }
+                    else r = run_helper(how, sp.state);
+                    std::string where = std::string("[grid ") + sl.grid + ", " + sp.what + (inv >= I_ACC_ROOT ? std::string(", launch ") + INVOCATIONS[inv] + " ("
+                        + LAUNCH_TEXT[inv - I_ACC_ROOT] + ")" : std::string(", invocation ") + INVOCATIONS[inv]) + ", build " + g_helpers[hv].first + "]";
                     const size_t fails_before = fails.size();
                     judge(r, expect_exe, expect_prefix, where, f, inv, exe_ub[inv], fails, global_fails);
                     if (fails.size() != fails_before) vf::stat("failing_runs_grid_" + sl.grid);
@@ -861,19 +1142,21 @@ namespace
                     vf::stat("evaluations");
                     vf::stat(std::string("runs_") + INVOCATIONS[inv]);
                     vf::stat("runs_grid_" + sl.grid);
-                    if (sl.grid != "C" && sl.grid != "E" && sl.grid != "F") vf::stat("runs_flavour_" + sp.label);
+                    if (sl.grid != "C" && sl.grid != "E" && sl.grid != "F" && sl.grid != "G") vf::stat("runs_flavour_" + sp.label);
                     if (L >= 1024) vf::stat("runs_with_path_ge_1024");
                     vf::smax("max_path_length", L);
                     vf::smax("max_depth", depth);
                     // distinct non-trivial: see ctx.rule in check.py
                     bool trivial = (sp.plain || sp.state == "fresh") && L < 256 && (inv == I_DIRECT || inv == I_RELATIVE);
-                    if (!trivial && g_distinct.insert(expect_exe.substr(g_realroot.size()) + "\x01" + INVOCATIONS[inv] + "\x01" + sp.state).second)
+                    if (sl.grid == "G") trivial = sp.plain && inv == I_ACC_ROOT;  // = an ordinary direct start
+                    if (!trivial && g_distinct.insert(expect_exe.substr(g_realroot.size()) + "\x01" + INVOCATIONS[inv] + "\x01" + sp.state
+                                                      + (sl.grid == "G" ? sp.label + "@" + sl.lenclass : std::string())).second)
                         vf::stat("distinct_nontrivial");
                     if (hv == 0 && cn == sample_at)
                         vf::sample(where + " -> executable_path() " + (r.exe == expect_exe ? "== install path" : "!= install path") + " ("
                             + std::to_string(r.exe.size()) + " bytes), prefix_path() " + (r.prefix == expect_prefix ? "== grandparent/" : "!= grandparent/")
                             + " (" + std::to_string(r.prefix.size()) + " bytes), asan " + (r.asan_exe || r.asan_prefix ? "REPORT" : "clean"),
-                            sl.grid == "A" || sl.grid == "B" ? 3 : 6);
+                            sl.grid == "A" || sl.grid == "B" ? 3 : sl.grid == "G" ? 9 : 6);
                     ++cn;
                 }
                 if (::unlink(file.c_str()) != 0) die("unlink installed program");
@@ -901,7 +1184,34 @@ namespace
             std::set<int> ff, fi;
             for (const failure* x : g.second) { F.insert({x->flavour, x->invocation}); ff.insert(x->flavour); fi.insert(x->invocation); }
             std::string scope;
-            if (F == present) scope = "all";
+            if (F == present && sl.grid != "G") scope = "all";
+            else if (sl.grid == "G")
+            {
+                // rights x file mode x launch: name the failing part when it is a full sub-product of what was run
+                std::set<int> fr, fm;
+                for (int f : ff) { fr.insert(specs[size_t(f)].rights); fm.insert(int(specs[size_t(f)].fmode)); }
+                std::set<std::pair<int, int>> prod;
+                std::set<int> allmodes, alllaunch, unprivileged;  // launches: those that could be started in the failing rows
+                for (auto& p : present)
+                {
+                    allmodes.insert(int(specs[size_t(p.first)].fmode));
+                    const bool row = fr.count(specs[size_t(p.first)].rights) && fm.count(int(specs[size_t(p.first)].fmode));
+                    if (row) { alllaunch.insert(p.second); if (p.second != I_ACC_ROOT) unprivileged.insert(p.second); }
+                    if (row && fi.count(p.second)) prod.insert(p);
+                }
+                if (F == present) scope = "access=all";
+                else if (F == prod)
+                {
+                    scope = "rights=";
+                    for (int r : fr) scope += std::string(scope.back() == '=' ? "" : "+") + (r < 0 ? "r-x" : RIGHTS[r]);
+                    if (fm != allmodes) { scope += ";file="; for (int m : fm) { char o[16]; std::snprintf(o, sizeof o, "%04o", unsigned(m)); scope += std::string(scope.back() == '=' ? "" : "+") + o; } }
+                    scope += ";launch=";
+                    if (fi == alllaunch) scope += "all";
+                    else if (fi == unprivileged) scope += "every-unprivileged";
+                    else for (int i : fi) scope += std::string(scope.back() == '=' ? "" : "+") + INVOCATIONS[i];
+                }
+                else scope = "access=some";
+            }
             else
             {
                 std::set<std::pair<int, int>> byf, byi;
@@ -913,7 +1223,7 @@ namespace
             }
             std::string sig = "C20/" + g.first.first + "/" + len_bucket(L_any) + "," + scope + "/" + g.first.second;
             std::string msg = g.second.front()->msg + " -- " + std::to_string(F.size()) + " of the " + std::to_string(present.size())
-                + " cases (flavour or name shape x invocation) of this cell fail this way";
+                + " cases (flavour or name shape or state or access rights x invocation or launch) of this cell fail this way";
             vf::violation(sig, msg, {"--slice", sl.grid, std::to_string(sl.depth), sl.lenclass});
         }
         for (const failure& x : global_fails)
@@ -952,6 +1262,31 @@ int main(int argc, char** argv)
     char rp[PATH_MAX];
     if (!::realpath(g_root.c_str(), rp)) die("realpath of root");
     g_realroot = rp;
+    g_isroot = ::geteuid() == 0;
+    if (g_isroot)
+    {
+        // is the dropped-privilege machinery available here?  (asked once, in a child)
+        pid_t pid = ::fork();
+        if (pid < 0) die("fork");
+        if (pid == 0) _exit(::setgroups(0, nullptr) == 0 && ::setgid(UNPRIV) == 0 && ::setuid(UNPRIV) == 0 && ::geteuid() == UNPRIV ? 0 : 1);
+        int status = 0;
+        while (::waitpid(pid, &status, 0) < 0)
+            if (errno != EINTR) die("waitpid");
+        g_access_grid = WIFEXITED(status) && WEXITSTATUS(status) == 0;
+    }
+    if (g_isroot && g_access_grid)
+    {
+        // grid G needs every directory ABOVE the install paths to be searchable by the unprivileged id (only the directories the
+        // case restricts may stand in its way); check.py creates the scratch root accordingly
+        struct stat st;
+        std::string up = g_realroot;
+        while (up.size() > 1)
+        {
+            if (::stat(up.c_str(), &st) != 0) die("stat " + up);
+            if ((st.st_mode & 0005) != 0005) die("the scratch root must be world-searchable for grid G: " + up);
+            up.erase(up.rfind('/') == 0 ? 1 : up.rfind('/'));
+        }
+    }
 
     tier_def T = make_tier(tier);
     vf::smax("grid_C_name_shapes", (long long) shapes().size());
@@ -979,6 +1314,22 @@ int main(int argc, char** argv)
         }
         for (int l : T.dot_long_lens)
             for (int p = 0; p <= T.dot_long_depth; ++p) slices.push_back(slice{"F", T.dot_long_depth, std::to_string(p) + "@" + std::to_string(l)});
+        if (!g_access_grid)
+        {
+            if (shard == 0)
+                vf::cap("grid G (access context) not run: this process is uid 0 but may not change to uid/gid 65534 (setgroups/setgid/setuid refused), and directory "
+                        "modes do not bind uid 0, so no access context can be set up");
+        }
+        else for (int k : T.access_paths)
+        {
+            const int d = ACCESS_PATHS[k].depth;
+            slices.push_back(slice{"G", k, "none"});
+            for (int p : access_positions(d, T.access_every_position)) slices.push_back(slice{"G", k, std::to_string(p)});
+            if (d > 1) slices.push_back(slice{"G", k, "all"});
+        }
+        if (!g_isroot && shard == 0)  // (then g_access_grid is true: an ordinary user can restrict its own directories)
+            vf::cap("grid G: not running as root, so directories the caller cannot search cannot be set up from outside; only the launch kind "
+                    "owner-revokes (the program restricts its own directories) is enumerated, the five root-based launch kinds are not");
     }
     long mine = 0, done_n = 0;
     for (size_t i = 0; i < slices.size(); ++i)
